@@ -62,6 +62,16 @@ def gen_cases(tier, seed):
             scale = 1.0
             if store == "bool" and init == "nvecs":
                 init = "given"
+        if i % 7 == 5 and rep in ("tensor", "ttensor") and fam == "lowrank" and store is None:
+            # leading (and other) singleton modes: only rank 1 is admissible; every mode order, the guess's entry for the singleton mode is
+            # negative or small
+            fam, R, Rt, optd = "singleton", 1, 1, None
+            shape = [[1, 4, 5], [1, 1, 3, 4], [4, 1, 3], [1, 5, 1, 3]][(i // 7) % 4]
+            dimorder = [int(x) for x in rng.permutation(len(shape))]
+            if (i // 7) % 2 == 0:
+                first_big = next(k_ for k_, s_ in enumerate(shape) if s_ > 1)
+                dimorder = [d for d in dimorder if d != first_big] + [first_big]
+            init, scale = "given", 1.0
         yield {"w": "als", "rep": rep, "shape": shape, "Rt": Rt, "R": R, "dimorder": dimorder, "optdims": optd, "init": init, "store": store,
                "fixsigns": bool(rng.integers(0, 2)), "printitn": int(rng.choice([0, 1, 3])), "stoptol": float(rng.choice([0.0, 0.0, 1e-4, 1e-1])),
                "kmax": 4 if tier == "quick" else 6, "gseed": int(rng.integers(0, 2 ** 31)), "cseed": int(seed) * 49979687 + next(cs),
@@ -132,7 +142,10 @@ def run_case(case, ctx):
         Xd = Xs
     elif rep == "ttensor":
         csz = tuple(min(s, 3) for s in shape)
-        D = _recording(ttb.ttensor)(ttb.tensor(scale * rng.standard_normal(csz)), [rng.standard_normal((s, c)) for s, c in zip(shape, csz)])
+        tf_ = [rng.standard_normal((s, c)) for s, c in zip(shape, csz)]
+        if case["cseed"] % 2:
+            tf_ = [f / np.linalg.norm(f, axis=0) for f in tf_]        # unit-length but correlated columns (not orthonormal)
+        D = _recording(ttb.ttensor)(ttb.tensor(scale * rng.standard_normal(csz)), tf_)
         Xd = denote(D)
     else:
         D = _recording(ttb.sumtensor)([ttb.tensor(X.copy()), Kt.copy()])
@@ -151,6 +164,10 @@ def run_case(case, ctx):
                 owner[:R] = np.arange(R) if shape[n] >= R else owner[:R]
                 F[np.arange(shape[n]), owner] = rng.random(shape[n]) + 0.5
                 M0.factor_matrices[n] = F
+    if fam == "singleton":
+        for n_ in range(N):
+            if shape[n_] == 1:
+                M0.factor_matrices[n_] = np.array([[float(rng.choice([-1.0, 0.4, -2.5]))]])
     if case["init"] == "near-truth":
         M0 = ttb.ktensor([np.eye(s, R) + 0.01 * rng.standard_normal((s, R)) for s in shape])
     ctx.feat(rep=rep, init=case["init"], N=N, R=R, all_modes=(optd is None), fixsigns=case["fixsigns"], printitn=case["printitn"], stoptol=case["stoptol"],
